@@ -25,6 +25,8 @@ import (
 	"verifh/bridge"
 	"verifh/corpus"
 	"verifh/ev"
+	c08g1 "verifh/props/c08/gen1"
+	c08g2 "verifh/props/c08/gen2"
 	"verifh/gen/all"
 	"verifh/model"
 	"verifh/rig"
@@ -108,7 +110,7 @@ func main() {
 	run.Rule("case = (generated resource method, scripted outcome, mounting): outcomes = success (default and overridden status), typed nil without error, ErrorResponse with each of the 64 subsets of {status, message, code, serviceErrorCode, exceptionClass, docUrl}, plain error, panic(string), panic(error), nil-dereference panic; " +
 		"the tapped HTTP status / error header / body and the generated client's result are compared with the statement's table; the ErrorResponse object returned by resource code is deep-compared with a snapshot taken before the call; " +
 		"a child process under the race detector serves concurrent requests that all return one shared error object. distinct = distinct (method kind, outcome kind)")
-	run.Assume("fields the resource left unset on an ErrorResponse may be defaulted for the client (status from the HTTP status, message free); fields it set must arrive equal", "v2 generation only")
+	run.Assume("fields the resource left unset on an ErrorResponse may be defaulted for the client (status from the HTTP status, message free); fields it set must arrive equal", "generated bindings: v2 only; the same table on the hand-written kit (15 method kinds x 21 outcomes x 2 mountings) runs against both module generations")
 	set := all.Sets[0]
 	if set.Name != "ks" {
 		run.Inconclusive("kitchen sink missing")
@@ -118,11 +120,17 @@ func main() {
 	for _, mounting := range []string{"bare", "mux", "prefixed"} {
 		functional(run, set, mounting, rng)
 	}
+	for _, mounting := range []string{"bare", "prefixed"} {
+		c08g2.RunKit(run, mounting)
+		c08g1.RunKit(run, mounting)
+	}
 	sharedObjectRace(run)
-	run.Set("generations", []string{"v2"})
+	run.Set("generations", []string{"v2", "root (hand-written kit only)"})
 	run.Require("calls", 300)
 	run.Require("error_object_snapshots", 50)
 	run.Require("race.requests", 100)
+	run.Require("root.kit.calls", 200)
+	run.Require("v2.kit.calls", 200)
 	run.Finish()
 }
 
